@@ -204,13 +204,16 @@ int printf(const char *, ...); void *calloc(unsigned long, unsigned long);
 #define K %d
 struct S { long pad; _Atomic long cnt; _Atomic unsigned char b; } gs;
 _Atomic long g_add, g_fetch, g_cas, g_mix; _Atomic unsigned short g16; _Atomic unsigned g_xor; _Atomic long *heap;
-unsigned char *seen;
+_Atomic long t_post, t_pre, t_opa; _Atomic int t_dec; unsigned char *seen, *seen1, *seen2, *seen3, *seen4;
+/* ticket dispensers: the VALUE of x++ / ++x / (x += 1) / x-- on an _Atomic object is the value of ONE atomic step: no two threads may get the same */
+static int ticket(unsigned char *tab, long v, const char *what) { if (v < 0 || v >= (long)N * K || tab[v]++) { printf("%%s returned %%ld twice or out of range\\n", what, v); return 1; } return 0; }
 void *worker(void *arg) {
   long id = (long)arg; _Atomic long local = 0;
   for (long i = 0; i < K; i++) {
     g_add += 3; gs.cnt++; gs.b += 1; g16 += 1; *heap += 2; local += 1;
     long old = atomic_fetch_add(&g_fetch, 1);
     if (old < 0 || old >= (long)N * K || seen[old]++) { printf("fetch_add returned %%ld twice or out of range\\n", old); return (void *)1; }
+    if (ticket(seen1, t_post++, "x++") || ticket(seen2, ++t_pre - 1, "++x") || ticket(seen3, (t_opa += 1) - 1, "x += 1") || ticket(seen4, (long)N * K - 1 + t_dec--, "x--")) return (void *)1;
     long e = g_cas; while (!atomic_compare_exchange_weak(&g_cas, &e, e + 5)) ;
     atomic_fetch_xor(&g_xor, (unsigned)(1u << (id %% 32)));
     g_mix -= 1; g_mix += 2;
@@ -218,7 +221,7 @@ void *worker(void *arg) {
   return (void *)(long)(local != K);
 }
 int main(void) {
-  pthread_t t[N]; seen = calloc((long)N * K, 1); heap = calloc(1, sizeof(long));
+  pthread_t t[N]; seen = calloc((long)N * K, 1); seen1 = calloc((long)N * K, 1); seen2 = calloc((long)N * K, 1); seen3 = calloc((long)N * K, 1); seen4 = calloc((long)N * K, 1); heap = calloc(1, sizeof(long));
   for (long i = 0; i < N; i++) pthread_create(&t[i], 0, worker, (void *)i);
   long bad = 0; for (int i = 0; i < N; i++) { void *r; pthread_join(t[i], &r); bad += (long)r; }
   long total = (long)N * K;
